@@ -669,12 +669,13 @@ def jobs(tier: str, seed: int):
     for o, n in [(2, 1), (1, 2), (2, 2)] + ([(3, 2), (2, 3)] if thorough else []):
         add("reshape", old_nd=o, new_nd=n, order="C", maxlen=4, infer=True)
         add("reshape", old_nd=o, new_nd=n, order="F", maxlen=4, infer=True)
-    pats = ["i", "s", "is", "si", "ss", "se", "ie", "sis"]
     if thorough:
-        pats += ["ii", "sss", "iss", "ssi", "sie", "see", "isis"]
-    for pat in pats:
-        add("basic_index", kinds=pat, maxlen=5 if len(pat) <= 2 else 4,
-            maxstep=(4 if thorough else 3) if pat.count("s") <= 1 else (3 if thorough else 2))
+        pats = [("i", 5, 4), ("s", 6, 4), ("is", 5, 3), ("si", 5, 3), ("ss", 4, 3), ("se", 5, 3), ("ie", 5, 3), ("sis", 4, 2),
+                ("ii", 5, 1), ("sss", 3, 1), ("iss", 3, 2), ("ssi", 3, 2), ("sie", 4, 2), ("see", 4, 2), ("isis", 3, 1)]
+    else:
+        pats = [("i", 5, 3), ("s", 5, 3), ("is", 4, 2), ("si", 4, 2), ("ss", 3, 1), ("se", 4, 2), ("ie", 4, 2)]
+    for pat, ml, ms in pats:
+        add("basic_index", kinds=pat, maxlen=ml, maxstep=ms)
     for nd, narr in [(1, 1), (1, 2), (2, 2), (2, 3), (0, 2)] + ([(3, 2), (2, 4)] if thorough else []):
         for ax in range(-(nd + 1), nd + 1) if thorough else range(nd + 1):
             add("stack", ndim=nd, narr=narr, axis=ax, maxlen=L)
@@ -688,8 +689,11 @@ def jobs(tier: str, seed: int):
         adv += [("AAA", (1, 2, 1)), ("A:A", (3, 5)), ("sAs", (1,)), ("iAs", (3,)), ("Asi", (1,)), ("A::", (1,)),
                 ("::A", (4,)), ("AA:", (1, 5)), (":AA", (5, 1)), ("i:A", (1,)), ("isA", (1,)), ("AiA", (1, 1))]
     for pat, sel in adv:
-        add("advanced_index", pattern=pat, shp_sel=sel, maxlen=4 if len(pat) < 3 else 3,
-            maxstep=2 if pat.count("s") < 2 else 1)
+        if thorough:
+            add("advanced_index", pattern=pat, shp_sel=sel, maxlen=4 if len(pat) < 3 else 3,
+                maxstep=2 if pat.count("s") < 2 else 1)
+        else:
+            add("advanced_index", pattern=pat, shp_sel=sel, maxlen=3, maxstep=1 if "s" in pat else 2)
     for spec, nops in _EINSUMS if thorough else _EINSUMS[:12]:
         add("einsum", spec=spec, bcast=0, maxlen=3)
     for spec, b in [("ij,jk->ik", 1), ("ij,jk->ik", 2), ("ij,jk->ik", 8), ("ij,ij->ij", 1), ("ij,ij->ij", 6),
